@@ -145,4 +145,23 @@ theorem checkSigs_nil_issuer (verify : K → Nat → B → B → Bool) (inp : In
         simp [hv] at h
         right; exact ⟨e, rest, rfl, h.symm, hv⟩
 
+/-! ### `signingParams` -/
+
+theorem findRow_mem (req : Nat) (l : List SigRow) (r : SigRow) (h : findRow req l = some r) :
+    r ∈ l ∧ r.algo = req := by
+  induction l with
+  | nil => simp [findRow] at h
+  | cons x xs ih =>
+    unfold findRow at h
+    split at h
+    · rename_i hx
+      cases h
+      exact ⟨List.mem_cons_self, hx⟩
+    · exact ⟨List.mem_cons_of_mem _ (ih h).1, (ih h).2⟩
+
+/-- the defaults of the key-type / curve switch name the digest `CheckSignatureFromKey` uses for them. -/
+theorem defaultParams_consistent (k : KeyKind) (pka h a : Nat) (hd : defaultParams k = some (pka, h, a)) :
+    verifyHash a = some h ∧ h ≠ 0 := by
+  cases k <;> simp [defaultParams] at hd <;> obtain ⟨_, rfl, rfl⟩ := hd <;> decide
+
 end ZV.C13
